@@ -559,6 +559,12 @@ def _r2(ctx, pkg):
     for f, line in now:
         fn = _enclosing(pkg.modules[f], None, line)
         ok = (f, fn) in allowed_now or any(f == af and _helper_of(pkg, fn, aq) for af, aq in allowed_now)
+        if not ok and fn and "." not in fn and _private(fn):
+            # a private module-level function used by nobody but a sanctioned function of the same module is a piece of it
+            users = {_enclosing(pkg.modules[f], x) for x in ast.walk(pkg.modules[f]) if isinstance(x, ast.Name) and x.id == fn and isinstance(x.ctx, ast.Load)}
+            elsewhere = any(isinstance(x, (ast.Name, ast.Attribute, ast.alias)) and (getattr(x, "id", None) == fn or getattr(x, "attr", None) == fn or getattr(x, "name", "").split(".")[-1] == fn)
+                            for g_ in pkg.files if g_ != f for x in ast.walk(pkg.modules[g_]))
+            ok = bool(users) and not elsewhere and all((f, u) in allowed_now or any(f == af and _helper_of(pkg, u, aq) for af, aq in allowed_now) for u in users)
         ctx.check(ok, "R2", f"{f}:{fn}:datetime.now", (f, line), "embedded date (excluded by the property)" if ok else "an additional time source reaches generated output")
     for f, line, s in bad:
         # render.py checks directories with os.listdir only for emptiness
